@@ -1101,6 +1101,7 @@ def history_probe(ctx, rng):
 def readonly_extras(ctx, rng):
     """entry points outside the effect model, probed with read-only float64 arrays (a write raises)"""
     import gstools as gs
+    from gstools.tools import geometric as GEO
 
     def ro(a):
         a = np.array(a, dtype=float); a.flags.writeable = False
@@ -1128,8 +1129,12 @@ def readonly_extras(ctx, rng):
             gs.krige.ExtDrift(the_model(), ro(cp), ro(cv), ro(rng.normal(size=8)))(pos, ext_drift=ro(rng.normal(size=n))),
             gs.krige.Detrended(the_model(), ro(cp), ro(cv), lambda *p: p[0])(pos)]),
         ("tools: rotated_main_axes/generate_grid/latlon2pos", lambda: (
-            gs.tools.generate_grid([ro([0, 1, 2]), ro([0, 1])]), gs.tools.latlon2pos(llpos), gs.tools.pos2latlon(gs.tools.latlon2pos(llpos)),
-            gs.tools.generate_st_grid(pos, ro([0.0, 1.0])))),
+            GEO.generate_grid([ro([0, 1, 2]), ro([0, 1])]), GEO.latlon2pos(llpos), GEO.pos2latlon(ro(GEO.latlon2pos(llpos))),
+            GEO.generate_st_grid(pos, ro([0.0, 1.0])), GEO.ang2dir(ro([0.3, 0.7])), GEO.rotated_main_axes(2, ro([0.4])))),
+        ("fit_normalizer paths", lambda: (
+            gs.vario_estimate(pos, ro(rng.uniform(1, 2, n)), ro(np.linspace(0, 5, 5)), normalizer=gs.normalizer.BoxCox, fit_normalizer=True),
+            gs.krige.Krige(the_model(), ro(cp), ro(cv), normalizer=gs.normalizer.BoxCox(), fit_normalizer=True, fit_variogram=True),
+            gs.normalizer.YeoJohnson(data=ro(rng.uniform(1, 2, n))))),
         ("transform.array_*", lambda: [getattr(gs.transform, f)(ro(rng.normal(size=n))) for f in (
             "array_to_lognormal", "array_zinnharvey", "array_force_moments", "array_to_uniform", "array_to_arcsin",
             "array_to_uquad", "array_boxcox")] + [gs.transform.array_discrete(ro(rng.normal(size=n)), ro([1.0, 2.0, 3.0]))]),
